@@ -49,7 +49,10 @@ def config(name, cols):
     if name == 'instance':
         return {'distribution': GaussianUnivariate()}
     if name == 'dict':
-        return {'distribution': {c: (GaussianUnivariate if i % 2 else UniformUnivariate) for i, c in enumerate(cols)}}
+        # keys in another order than the table's columns, and (3+ columns) not naming the first one: the dict only says which family
+        # a column gets, never where the column goes
+        named = list(enumerate(cols))[::-1] if len(cols) < 3 else list(enumerate(cols))[:0:-1]
+        return {'distribution': {c: (GaussianUnivariate if i % 2 else UniformUnivariate) for i, c in named}}
     if name == 'kde':
         return {'distribution': GaussianKDE}
     return {}
@@ -80,6 +83,14 @@ def _observe(job):
     try:
         np.random.seed(seed)
         m = GaussianMultivariate(**config(cfg, cols))
+        if seed % 3 == 1:       # an instance with a past: fitted to, and used on, a table with another dependence
+            old = pd.DataFrame({c: rs.permutation(df[c].to_numpy()) for c in cols})
+            try:
+                m.fit(old)
+                m.sample(2)
+                m.probability_density(old.iloc[:2])
+            except Exception:
+                pass
         m.fit(df.copy())
         C = m.correlation
         R = np.asarray(C.to_numpy(), dtype=float)
